@@ -64,7 +64,43 @@ def gramdet(M):
     return denote.det(G) if len(G) > 1 else G[0][0]
 
 
+SCALARS = ["JacobianDeterminant", "CellVolume", "Circumradius", "CellDiameter", "MinCellEdgeLength", "MaxCellEdgeLength",
+           "FacetArea", "MinFacetEdgeLength", "MaxFacetEdgeLength"]
+
+
+def run_pair(spec):
+    """Context independence: several quantities lowered in ONE call (shared memoisation inside the lowering pass)
+    must each come out as when lowered alone (the single lowerings are decided against their predicates above)."""
+    name = spec["name"]
+    cell, g = spec["cell"], spec["gdim"]
+    dom = mesh(cell, g)
+    facet = spec.get("facet", 0)
+    qs = [getattr(C, qn)(dom) for qn in spec["qs"]]
+    try:
+        singles = [lower(q) for q in qs]
+        together = lower(ufl.as_vector(qs))
+    except Exception as ex:
+        return outcome(name, "rejected", detail=f"lowering raised {type(ex).__name__}: {str(ex)[:100]}")
+    sample = f"{', '.join(spec['qs'])} on {cell} in R^{g} lowered in one expression: {str(together)[:200]}"
+    if together.ufl_shape != (len(qs),):
+        return outcome(name, "violated", detail=f"shape {together.ufl_shape}", sample=sample, witness={"structural": "shape"})
+    env = GeomEnv(cell, g, mode="J", facet=facet)
+    den = Denoter(env)
+    try:
+        pairs = [(den.ev(s1, (), {}, (), None), den.ev(together, (k,), {}, (), None)) for k, s1 in enumerate(singles)]
+        diffs = solve.flatten_diffs(pairs)
+    except DenotationError as ex:
+        return outcome(name, "inconclusive", detail=f"denotation: {ex}", sample=sample)
+    r = solve.prove_all_zero(diffs, timeout=spec.get("timeout", 120), label=name)
+    ok, bad = solve.discharge_lemmas(timeout=60)
+    st = r.status if not (r.status == "proved" and bad) else "inconclusive"
+    return outcome(name, st, stage=r.stage, detail=(r.detail or "") + (" lowered together differs from lowered alone" if st == "violated" else ""),
+                   witness=r.witness, sample=sample)
+
+
 def run(spec):
+    if spec.get("family") == "pair":
+        return run_pair(spec)
     name = spec["name"]
     cell, g, qn = spec["cell"], spec["gdim"], spec["q"]
     dom = mesh(cell, g)
@@ -252,6 +288,21 @@ def specs(tier):
                               gdim=g, facet=f, timeout=180 if q == "Circumradius" else 120,
                               task_timeout=600 if q == "Circumradius" else 300,
                               twin=(q in ("CellVolume", "JacobianInverse", "FacetNormal") and (cell, g) == ("triangle", 2) and f in (None, 0))))
+    # several quantities lowered in one expression, in both orders
+    import itertools
+
+    for cell, g in (("triangle", 2), ("tetrahedron", 3), ("triangle", 3)) + ((("interval", 2),) if tier == "thorough" else ()):
+        t = TD[cell]
+        avail = [q for q in SCALARS if not (q in ("MinFacetEdgeLength", "MaxFacetEdgeLength") and t < 3)]
+        for a, b in itertools.permutations(avail, 2):
+            heavy = "Circumradius" in (a, b) and cell == "tetrahedron"
+            if heavy and tier != "thorough" and not {a, b} <= {"Circumradius", "CellVolume", "MinCellEdgeLength"}:
+                continue
+            S.append(dict(name=f"pair/{a}+{b}/{cell}/gdim={g}", family="pair", qs=[a, b], cell=cell, gdim=g, facet=0,
+                          timeout=120, task_timeout=400))
+        S.append(dict(name=f"pair/all-edge-lengths/{cell}/gdim={g}", family="pair", cell=cell, gdim=g, facet=0, timeout=120,
+                      qs=["MaxCellEdgeLength", "CellDiameter", "MinCellEdgeLength"] + (["MaxFacetEdgeLength", "MinFacetEdgeLength"] if t == 3 else []),
+                      task_timeout=400))
     return S
 
 
@@ -271,7 +322,8 @@ def main():
                      "reference-cell tables of vlib/geometry.py (FIAT/UFC numbering: facet f opposite vertex f)",
                      "radicals y >= 0, y^2 = x; CellOrientation^2 = 1"],
         rule="one obligation per (quantity, cell, gdim, facet): equations of the specification predicate decided by "
-             "z3 (radicals rewritten), sign predicates decided as implications under the side facts",
+             "z3 (radicals rewritten), sign predicates decided as implications under the side facts; plus context "
+             "independence: ordered pairs of scalar quantities lowered in one expression == each lowered alone",
         trusted_base=["vlib/geometry.py", "vlib/denote.py", "z3"],
     )
     sys.exit(rc)
